@@ -1199,7 +1199,6 @@ func (mgr *Manager) UpdateTag(name string, operation UpdateTagOperation) error {
 			// no operation
 			return nil
 		}
-		maxUsedStreamID--
 	}
 	var newTag *tag
 	if info.query != nil {
@@ -1318,8 +1317,8 @@ func (mgr *Manager) UpdateTag(name string, operation UpdateTagOperation) error {
 				mgr.startConverterJobIfNeeded()
 			}
 			if maxUsedStreamID != 0 {
-				if maxUsedStreamID >= mgr.nextStreamID {
-					return fmt.Errorf("unknown stream id %d", maxUsedStreamID)
+				if maxUsedStreamID > mgr.nextStreamID {
+					return fmt.Errorf("unknown stream id %d", maxUsedStreamID-1)
 				}
 				newTag := *tag
 				prevUncertain := tag.Uncertain
